@@ -115,7 +115,7 @@ func VerifHarness_C06_Process2() { c06Process(2, 3) }
 
 // sentences with several verbs and a target: reading the expansion leaves the analysis as it was
 func VerifHarness_C06_ProcessSentences() {
-	q := []string{"find and delete files", "copy or move files to another folder", "search and replace text then compress and extract archive", "list show view file"}[verifIntRange("sentence", 0, 3)]
+	q := []string{"find and delete files", "copy or move files to another folder", "search and replace text then compress and extract archive", "list show view file", "copy file folder server", "ip of the server"}[verifIntRange("sentence", 0, 5)]
 	pq := NewQueryProcessor().ProcessQuery(q)
 	acts := append([]string(nil), pq.Actions...)
 	tgts := append([]string(nil), pq.Targets...)
@@ -133,6 +133,20 @@ func VerifHarness_C06_ProcessSentences() {
 		return true
 	}
 	verifAssert(same(acts, pq.Actions) && same(tgts, pq.Targets) && same(kws, pq.Keywords), "C06: analysing the same text twice gives the same analysis (reading the expansion does not modify it)")
+	// the nouns the user typed in these sentences (read off the text by hand: everything that
+	// is neither a verb nor a stop word) come first in the expansion, in the user's order
+	own := map[string][]string{
+		"find and delete files":   {"files"},
+		"copy file folder server": {"file", "folder", "server"},
+		"ip of the server":        {"ip", "server"},
+	}[q]
+	enh0 := pq.GetEnhancedKeywords()
+	verifAssert(len(enh0) >= len(own), "C06: expanded terms contain every keyword of the user's text")
+	if len(enh0) >= len(own) {
+		for k := range own {
+			verifAssert(enh0[k] == own[k], "C06: expanded terms begin with the user's keywords in the user's order (nouns read off the text)")
+		}
+	}
 	fresh := NewQueryProcessor().ProcessQuery(q)
 	verifAssert(same(fresh.Actions, pq.Actions) && same(fresh.Targets, pq.Targets), "C06: analysing the same text twice gives the same analysis")
 	e1, e2 := pq.GetEnhancedKeywords(), fresh.GetEnhancedKeywords()
